@@ -88,8 +88,10 @@ class SimRaw(io.RawIOBase):
         if f is not None:
             kind = f["kind"]
             if kind == "EINTR":
-                raise InterruptedError(_errno.EINTR, "Interrupted system call")
-            if kind != "short":
+                # like the real FileIO (PEP 475) the raw layer retries an interrupted system call
+                # itself: no caller ever sees EINTR, the transfer just happens on the second attempt
+                f = None
+            elif kind != "short":
                 raise _oserror(kind, self.path)
         data = self._data()
         chunk = bytes(data[self.pos:self.pos + n_req])
@@ -109,10 +111,10 @@ class SimRaw(io.RawIOBase):
         if f is not None:
             kind = f["kind"]
             if kind == "EINTR":
-                raise InterruptedError(_errno.EINTR, "Interrupted system call")
-            if kind != "short":
+                pass  # retried inside the raw layer, like the real FileIO (PEP 475)
+            elif kind != "short":
                 raise _oserror(kind, self.path)
-            if n_req > 1:
+            elif n_req > 1:
                 b = b[:max(1, min(n_req - 1, f.get("n", 1)))]
                 self.fs.note_fired(f)
         data = self._data()
@@ -192,6 +194,7 @@ class SimFS:
         self.seq = 0
         self.open_objs: list = []
         self.passthrough: list = []
+        self.links: dict = {}        # symbolic links: path -> target path (both normalised)
         self.fifos: set = set()      # paths that are named pipes / process substitutions (readable, not regular)
         self.mtimes: dict = {}       # path -> logical modification time
         self.fds: dict = {}          # simulated descriptors (>= FD_BASE) -> SimRaw
@@ -209,6 +212,19 @@ class SimFS:
 
     def role_of(self, path: str) -> str:
         return self.roles.get(path, "OTHER")
+
+    def resolve(self, path: str) -> str:
+        """Follow symbolic links (final component only; bounded)."""
+        for _ in range(8):
+            t = self.links.get(path)
+            if t is None:
+                return path
+            path = t
+        return path
+
+    def set_links(self, links: dict):
+        for k, v in (links or {}).items():
+            self.links[self.norm(k)] = self.norm(v)
 
     def is_sim(self, path) -> bool:
         if isinstance(path, int):
@@ -278,6 +294,7 @@ class SimFS:
             raise FileNotFoundError(_errno.ENOENT, os.strerror(_errno.ENOENT), os.fspath(file))
         path = self.norm(file)
         role = self.role_of(path)
+        path = self.resolve(path)
         modes = set(mode)
         if modes - set("axrwb+tU") or len(mode) > len(modes):
             raise ValueError("invalid mode: %r" % mode)
@@ -364,6 +381,8 @@ class SimFS:
             raise FileNotFoundError(_errno.ENOENT, os.strerror(_errno.ENOENT), os.fspath(path))
         p = self.norm(path)
         role = self.role_of(p)
+        if not flags & getattr(_os, "O_NOFOLLOW", 0):
+            p = self.resolve(p)
         acc = flags & (_os.O_RDONLY | _os.O_WRONLY | _os.O_RDWR)
         want_write = acc in (_os.O_WRONLY, _os.O_RDWR)
         want_read = acc in (_os.O_RDONLY, _os.O_RDWR)
@@ -466,7 +485,37 @@ class SimFS:
         raise FileNotFoundError(_errno.ENOENT, os.strerror(_errno.ENOENT), p)
 
     def os_stat(self, path, *a, **kw):
-        return self._stat_result(self.norm(path))
+        if kw.get("follow_symlinks", True) is False:
+            return self.os_lstat(path)
+        return self._stat_result(self.resolve(self.norm(path)))
+
+    def os_lstat(self, path, *a, **kw):
+        import stat as _stat
+
+        p = self.norm(path)
+        if p in self.links:
+            return os.stat_result((_stat.S_IFLNK | 0o777, sum(p.encode()) & 0xFFFF, 1, 1, 0, 0, len(self.links[p]), 0, 0, 0))
+        return self._stat_result(p)
+
+    def os_access(self, path, mode, *a, **kw):
+        import os as _os
+
+        p = self.resolve(self.norm(path))
+        if p not in self.files and p not in self.dirs:
+            return False
+        if mode & _os.R_OK and p in self.unreadable:
+            return False
+        if mode & _os.W_OK and p in self.ro:
+            return False
+        if mode & _os.X_OK and p in self.files:
+            return False
+        return True
+
+    def os_readlink(self, path, *a, **kw):
+        p = self.norm(path)
+        if p not in self.links:
+            raise OSError(_errno.EINVAL, os.strerror(_errno.EINVAL), os.fspath(path))
+        return self.links[p]
 
     def os_mkdir(self, path, mode=0o777, *a, **kw):
         p = self.norm(path)
@@ -536,6 +585,13 @@ class SimFS:
         f = self.fault("rename", self.role_of(d), d, 0)
         if f is not None:
             raise _oserror(f["kind"], d)
+        if s in self.links:
+            # renaming a symbolic link moves the link
+            self.links[d] = self.links.pop(s)
+            self.files.pop(d, None)
+            self.mutation("rename-onto", self.role_of(d), d)
+            self.record("rename", self.role_of(d), d, s, "ok")
+            return
         if s not in self.files:
             raise FileNotFoundError(_errno.ENOENT, os.strerror(_errno.ENOENT), os.fspath(src))
         if d in self.dirs:
@@ -544,6 +600,7 @@ class SimFS:
             raise FileNotFoundError(_errno.ENOENT, os.strerror(_errno.ENOENT), os.fspath(dst))
         if posixpath.dirname(d) in self.ro or posixpath.dirname(s) in self.ro:
             raise PermissionError(_errno.EACCES, os.strerror(_errno.EACCES), os.fspath(dst))
+        self.links.pop(d, None)  # a rename onto a symbolic link replaces the link, not its target
         self.files[d] = self.files.pop(s)
         self.mutation("rename-onto", self.role_of(d), d)
         self.mutation("rename-from", self.role_of(s), s)
@@ -554,6 +611,11 @@ class SimFS:
         f = self.fault("unlink", self.role_of(p), p, 0)
         if f is not None:
             raise _oserror(f["kind"], p)
+        if p in self.links:
+            del self.links[p]
+            self.mutation("unlink", self.role_of(p), p)
+            self.record("unlink", self.role_of(p), p, 0, "ok")
+            return
         if p not in self.files:
             raise FileNotFoundError(_errno.ENOENT, os.strerror(_errno.ENOENT), os.fspath(path))
         if posixpath.dirname(p) in self.ro:
@@ -563,18 +625,29 @@ class SimFS:
         self.record("unlink", self.role_of(p), p, 0, "ok")
 
     def exists(self, path, *a, **kw):
-        p = self.norm(path)
+        p = self.resolve(self.norm(path))
         return p in self.files or p in self.dirs
 
     def isfile(self, path, *a, **kw):
-        p = self.norm(path)
+        p = self.resolve(self.norm(path))
         return p in self.files and p not in self.fifos
 
     def isdir(self, path, *a, **kw):
         return self.norm(path) in self.dirs
 
-    def snapshot(self) -> dict:
-        return {"files": {p: bytes(self.files[p]).hex() for p in sorted(self.files)}, "dirs": sorted(self.dirs)}
+    def snapshot(self, keep=()) -> dict:
+        """Contents as hex; large files that are not of interest to the oracle (not in `keep`) are
+        represented by a digest, which is all that is needed to see whether they changed."""
+        import hashlib
+
+        files = {}
+        for p in sorted(self.files):
+            data = bytes(self.files[p])
+            if len(data) > 16384 and p not in keep:
+                files[p] = "#sha256:%s:%d" % (hashlib.sha256(data).hexdigest(), len(data))
+            else:
+                files[p] = data.hex()
+        return {"files": files, "dirs": sorted(self.dirs), "links": {p: self.links[p] for p in sorted(self.links)}}
 
 
 class Patches:
@@ -649,12 +722,15 @@ class Patches:
                         return fs.os_fstat(path)
                     return real(path, *args, **kw)
                 if fs.is_sim(path):
-                    return fs.os_stat(path)
+                    return fs.os_stat(path, **{k: v for k, v in kw.items() if k == "follow_symlinks"})
                 return real(path, *args, **kw)
             return f
 
         self._set(_os, "stat", sim_stat(_os.stat))
-        self._set(_os, "lstat", sim_stat(_os.lstat))
+        self._set(_os, "lstat", wrap1(_os.lstat, fs.os_lstat))
+        self._set(_os, "readlink", wrap1(_os.readlink, fs.os_readlink))
+        self._set(_os, "access", wrap1(_os.access, fs.os_access))
+        self._set(_os.path, "islink", wrap1(_os.path.islink, lambda p: fs.norm(p) in fs.links))
         self._set(_os, "fstat", wrapfd(_os.fstat, fs.os_fstat))
         self._set(_os, "mkdir", wrap1(_os.mkdir, fs.os_mkdir))
         self._set(_os, "listdir", lambda path=".": fs.os_listdir(path) if fs.is_sim(path) else _real_listdir(path))
@@ -664,7 +740,7 @@ class Patches:
         self._set(_os.path, "getmtime", wrap1(_os.path.getmtime, lambda p: fs.os_stat(p).st_mtime))
         self._set(_os, "utime", wrap1(_os.utime, lambda p, *a, **k: None))
         self._set(_os.path, "abspath", wrap1(_os.path.abspath, lambda p: fs.norm(p)))
-        self._set(_os.path, "realpath", wrap1(_os.path.realpath, lambda p, **kw: fs.norm(p)))
+        self._set(_os.path, "realpath", wrap1(_os.path.realpath, lambda p, **kw: fs.resolve(fs.norm(p))))
         try:
             import fcntl as _fcntl
 
